@@ -167,6 +167,7 @@ func (b *BitSet) ClearRange(start, end int) {
 	i2 := end >> addressBitsPerWord
 	if i2 > maximum {
 		i2 = maximum
+		end = (maximum+1)<<addressBitsPerWord - 1
 	}
 	j := bitIndexForMask(wordMask(start))
 	for i := i1; i <= i2; i++ {
